@@ -29,7 +29,7 @@ deriving Repr
 
 inductive POut
   | lis (pool lis : Nat) (o : Listener.Out)
-  | discard (pool : Nat) (serial : Int)         -- overflow: error log line
+  | discard (pool : Nat) (e : Nat) (serial : Int)   -- overflow: event `e` dropped, error log line with its serial
 deriving Repr
 
 structure W where
@@ -50,6 +50,30 @@ def setPool (w : W) (i : Nat) (f : PoolSt → PoolSt) : W :=
 def setEv (w : W) (e : Nat) (f : Ev → Ev) : W :=
   { w with events := w.events.modify e f }
 
+/-- `len(self.event_buffer) >= self.config.buffer_size` and `self.event_buffer` (non-empty): the oldest goes -/
+def overflowed (p : PoolSt) : Bool :=
+  accept_g4 true true true false p.buffer.length p.bufSize (!p.buffer.isEmpty) &&
+  accept_g5 true true true false p.buffer.length p.bufSize (!p.buffer.isEmpty)
+
+/-- the buffer part of `_acceptEvent`: `pop(0)` on overflow, then `insert(0, event)` / `append(event)` -/
+def insBuf (e : Nat) (head : Bool) (p : PoolSt) : PoolSt :=
+  let b := if overflowed p then p.buffer.drop 1 else p.buffer
+  if accept_g6 true true true head p.buffer.length p.bufSize (!p.buffer.isEmpty) then { p with buffer := e :: b }
+  else { p with buffer := b ++ [e] }
+
+/-- the overflow rule (with its error log entry) and the insertion -/
+def insertEv (i e : Nat) (head : Bool) (w : W) : W :=
+  match w.pools[i]? with
+  | none => w
+  | some pool =>
+    let w1 :=
+      if overflowed pool then
+        match pool.buffer with
+        | d :: _ => { w with outs := w.outs ++ [.discard i d (((w.events[d]?).bind (·.serial)).getD (-1))] }
+        | [] => w
+      else w
+    setPool w1 i (insBuf e head)
+
 /-- `EventListenerPool._acceptEvent(event, head)` for pool `i` and event id `e` -/
 def acceptEvent (i e : Nat) (head : Bool) (w : W) : W :=
   match w.pools[i]?, w.events[e]? with
@@ -61,33 +85,12 @@ def acceptEvent (i e : Nat) (head : Bool) (w : W) : W :=
     let inPS := (ev.poolSerials.lookup pool.name).isSome
     let len : Int := pool.buffer.length
     if accept_g2 true true inPS head len pool.bufSize (!pool.buffer.isEmpty) then
-      let ps := newSerial pool.serial
-      let w2 := setEv w1 e (fun x => { x with poolSerials := x.poolSerials ++ [(pool.name, ps)] })
-      let w3 := setPool w2 i (fun p => { p with serial := ps })
+      let w2 := setEv w1 e (fun x => { x with poolSerials := x.poolSerials ++ [(pool.name, newSerial pool.serial)] })
+      let w3 := setPool w2 i (fun p => { p with serial := newSerial p.serial })
       insertEv i e head w3
     else if accept_g3 true true inPS head len pool.bufSize (!pool.buffer.isEmpty) then w1   -- already accepted
     else insertEv i e head w1
   | _, _ => w
-where
-  /-- the overflow rule and the insertion -/
-  insertEv (i e : Nat) (head : Bool) (w : W) : W :=
-    match w.pools[i]? with
-    | none => w
-    | some pool =>
-      let len : Int := pool.buffer.length
-      let w1 :=
-        if accept_g4 true true true head len pool.bufSize (!pool.buffer.isEmpty) then
-          if accept_g5 true true true head len pool.bufSize (!pool.buffer.isEmpty) then
-            match pool.buffer with
-            | d :: rest =>
-              let ser := ((w.events[d]?).bind (·.serial)).getD (-1)
-              { setPool w i (fun p => { p with buffer := rest }) with outs := w.outs ++ [.discard i ser] }
-            | [] => w
-          else w
-        else w
-      if accept_g6 true true true head len pool.bufSize (!pool.buffer.isEmpty) then
-        setPool w1 i (fun p => { p with buffer := e :: p.buffer })
-      else setPool w1 i (fun p => { p with buffer := p.buffer ++ [e] })
 
 /-- the subscription list built by the pools' `_subscribe()` in creation order -/
 def callbacks (pools : List PoolSt) : List Sub :=
@@ -167,8 +170,8 @@ def dispatch (pi : Nat) : Nat → W → W
     | some pool =>
       match pool.buffer with
       | [] => w
-      | e :: rest =>
-        let w1 := setPool w pi (fun p => { p with buffer := rest })
+      | e :: _ =>
+        let w1 := setPool w pi (fun p => { p with buffer := p.buffer.drop 1 })   -- pop(0)
         let r := dispatchEvent pi e w1
         if r.1.err.isSome then r.1
         else if r.2 then dispatch pi fuel r.1
@@ -213,55 +216,84 @@ def showPOut : POut → String
   | .lis p l (.rejected e) => s!"rej:{p}.{l}:{showOpt e}"
   | .lis p l (.wrote b) => s!"w:{p}.{l}:{hexOfBytes b}"
   | .lis _ _ _ => ""
-  | .discard p s => s!"discard:{p}:{s}"
+  | .discard p _ s => s!"discard:{p}:{s}"
 
 def showW (w : W) (pre : Nat) : String :=
   let v := ((w.outs.drop pre).map showPOut).filter (· ≠ "")
   s!"{if v.isEmpty then "-" else ";".intercalate v} | {showErr w.err}"
 
-def runOp (h : Bytes → HRes) (w : W) (l : String) : Option W :=
+/-- the operations of a history: what the environment (children, kernel, main loop) can make happen -/
+inductive Op
+  | notify (c : Cls) (payload : Bytes)
+  | transition (pi : Nat)
+  | read (pi li : Nat) (d : Bytes)
+  | wev (pi li : Nat)
+  | pstate (pi li : Nat) (ps : PState)
+  | cap (pi li : Nat) (c : Option Nat)
+  | breakpipe (pi li : Nat)
+  | die (pi li : Nat) (d payload : Bytes)
+  | spawn (pi li : Nat) (pid : Int) (payload : Bytes)
+
+def applyOp (h : Bytes → HRes) (w : W) : Op → W
+  | .notify c b => notify c b w
+  | .transition pi => transition pi w
+  | .read pi li d => onListener pi li (readEvent h d) w
+  | .wev pi li => onListener pi li writeEvent w
+  | .pstate pi li ps => onListener pi li (setPState ps) w
+  | .cap pi li c => onListener pi li (setP fun p => { p with pipeCap := c }) w
+  | .breakpipe pi li => onListener pi li (setP fun p => { p with pipeBroken := true }) w
+  | .die pi li d p => dieOp h pi li d p w
+  | .spawn pi li pid p => spawnOp pi li pid p w
+
+/-- one operation of a history; an exception that escaped the previous operation was observed and is gone -/
+def step (h : Bytes → HRes) (w : W) (op : Op) : W := applyOp h { w with err := none } op
+
+/-- a whole history -/
+def exec (h : Bytes → HRes) (w : W) (ops : List Op) : W := ops.foldl (step h) w
+
+def parseOp (l : String) : Option Op :=
   match words l with
   | ["notify", c, hx] =>
     match parseCls c, bytesOfHex hx with
-    | some c, some b => some (notify c b w)
+    | some c, some b => some (.notify c b)
     | _, _ => none
-  | ["transition", pi] => pi.toNat?.map fun pi => transition pi w
+  | ["transition", pi] => pi.toNat?.map .transition
   | ["read", pi, li, hx] =>
     match pi.toNat?, li.toNat?, bytesOfHex hx with
-    | some pi, some li, some d => some (onListener pi li (readEvent h d) w)
+    | some pi, some li, some d => some (.read pi li d)
     | _, _, _ => none
   | ["wev", pi, li] =>
     match pi.toNat?, li.toNat? with
-    | some pi, some li => some (onListener pi li writeEvent w)
+    | some pi, some li => some (.wev pi li)
     | _, _ => none
   | ["pstate", pi, li, t] =>
     match pi.toNat?, li.toNat?, parsePState t with
-    | some pi, some li, some ps => some (onListener pi li (setPState ps) w)
+    | some pi, some li, some ps => some (.pstate pi li ps)
     | _, _, _ => none
   | ["cap", pi, li, t] =>
     match pi.toNat?, li.toNat?, parseCap t with
-    | some pi, some li, some c => some (onListener pi li (setP fun p => { p with pipeCap := c }) w)
+    | some pi, some li, some c => some (.cap pi li c)
     | _, _, _ => none
   | ["breakpipe", pi, li] =>
     match pi.toNat?, li.toNat? with
-    | some pi, some li => some (onListener pi li (setP fun p => { p with pipeBroken := true }) w)
+    | some pi, some li => some (.breakpipe pi li)
     | _, _ => none
   | ["die", pi, li, hx, pay] =>
     match pi.toNat?, li.toNat?, bytesOfHex hx, bytesOfHex pay with
-    | some pi, some li, some d, some p => some (dieOp h pi li d p w)
+    | some pi, some li, some d, some p => some (.die pi li d p)
     | _, _, _, _ => none
   | ["spawn", pi, li, pid, pay] =>
     match pi.toNat?, li.toNat?, pid.toInt?, bytesOfHex pay with
-    | some pi, some li, some n, some p => some (spawnOp pi li n p w)
+    | some pi, some li, some n, some p => some (.spawn pi li n p)
     | _, _, _, _ => none
   | _ => none
 
 def runOps (h : Bytes → HRes) : W → List String → List String
   | _, [] => []
   | w, l :: ls =>
-    match runOp h w l with
+    match parseOp l with
     | none => "bad-op" :: runOps h w ls
-    | some w' => showW w' w.outs.length :: runOps h { w' with err := none } ls
+    | some op => let w' := step h w op; showW w' w.outs.length :: runOps h w' ls
 
 /-- pools=name:bufsize:nlisteners:TYPE+TYPE,… -/
 def parsePools (spec : String) : Option (List PoolSt) :=
